@@ -18,6 +18,7 @@ import (
 	cctypes "github.com/functionx/fx-core/v8/x/crosschain/types"
 	erc20types "github.com/functionx/fx-core/v8/x/erc20/types"
 
+	"fxmc/evmasm"
 	"fxmc/explore"
 	"fxmc/scen"
 	"fxmc/world"
@@ -42,6 +43,7 @@ type Spec struct {
 	tracked []world.Actor
 	fxBase  map[string]sdkmath.Int
 	lastVoteFailure string
+	reverter common.Address
 }
 
 func (s *Spec) Name() string {
@@ -154,6 +156,10 @@ func (s *Spec) Init() *explore.State {
 		}
 	}
 	s.tracked = []world.Actor{w.A("u1"), w.A("u2"), w.A("mallory")}
+	if s.Inbound {
+		// a contract that always reverts (target of failing inbound bridge calls); tracked like an account
+		s.reverter = w.Deploy(ctx, w.A("rel"), evmasm.Program{Revert: true}.InitCode())
+	}
 	m := &Model{Hold: map[string]map[string]int64{}, Recs: map[uint64]*Rec{}, Batches: map[string]*Batch{}, Calls: map[uint64]*Call{}, Dep: map[string]int64{}, Wd: map[string]int64{},
 		Escrow: map[string]int64{}, ExtSupply: map[string]int64{}, Nonce: nonces, ExtH: map[string]uint64{}, Ext: map[string]*ExtChain{}, NextRec: map[string]uint64{}}
 	for _, ch := range s.Chains {
@@ -393,6 +399,9 @@ func (s *Spec) Ops(st *explore.State) []explore.Op {
 		for _, t := range s.Tokens {
 			if s.toks[t].Kind == "external" && m.ExtSupply[ch0+"/"+t] < 2 {
 				continue
+			}
+			if len(m.Calls) < 3 {
+				ops = append(ops, s.callInFailOp(ch0, t, "u2"))
 			}
 			ops = append(ops, s.callInOp(ch0, t, "u2", "u2"), s.callInOp(ch0, t, "u2", "mallory"))
 		}
@@ -1044,4 +1053,55 @@ func (s *Spec) openKinds(m *Model) string {
 		}
 	}
 	return k
+}
+
+// callInFailOp: an inbound bridge call carrying 2 units of tok to a contract that reverts; refund address is an ordinary account.
+// Ledger expectation: the call fails, the tokens go into a refund record (outgoing bridge call) and nobody's holdings change.
+func (s *Spec) callInFailOp(ch, tok, refund string) explore.Op {
+	return explore.Op{Name: fmt.Sprintf("BridgeCallInFailing(%s,to=reverter,refund=%s)", tok, refund), Run: func(c *explore.State) {
+		m := c.Model.(*Model)
+		tk := s.toks[tok]
+		m.Nonce[ch]++
+		m.ExtH[ch]++
+		en := m.Nonce[ch]
+		claim := &cctypes.MsgBridgeCallClaim{ChainName: ch, EventNonce: en, BlockHeight: m.ExtH[ch], Sender: scen.ExtAddr(ch, "depositor"), Refund: s.w.A(refund).Hex().String(),
+			TokenContracts: []string{tk.Ext[ch]}, Amounts: []sdkmath.Int{sdkmath.NewInt(2)}, To: s.reverter.String(), Data: "", Value: sdkmath.ZeroInt(), Memo: "", TxOrigin: scen.ExtAddr(ch, "origin")}
+		r := scen.Vote(s.w, c.Ctx, ch, s.os[ch][0], claim)
+		if !r.OK() {
+			m.Nonce[ch]--
+			res(c, false)
+			return
+		}
+		s.observeHeightEffects(c, ch, m.ExtH[ch])
+		revBefore := scen.Holdings(s.w, c.Ctx, tk, s.reverter.Bytes())
+		before := scen.LastBridgeCallID(s.w, c.Ctx, ch)
+		er := s.w.CallABI(c.Ctx, s.w.A("rel"), cctypes.GetAddress(), cctypes.GetABI(), nil, 3_000_000, "executeClaim", ch, new(big.Int).SetUint64(en))
+		res(c, er.Success())
+		m.Dep[tok] += 2
+		m.ExtSupply[ch+"/"+tok] -= 2
+		if !er.Success() {
+			c.Outcome = "execute-failed"
+			// the claim stays parked and can never be executed: the deposited value is stuck outside every account
+			m.Dep[tok] -= 2
+			m.ExtSupply[ch+"/"+tok] += 2
+			if s.Ledger {
+				c.Violate("failed-inbound-call-is-refunded", s.sig("inbound-bridge-call-to-failing-contract-not-executable/refund-differs-from-receiver"), er.String())
+			}
+			return
+		}
+		n := scen.LastBridgeCallID(s.w, c.Ctx, ch)
+		if n != before+1 {
+			c.Violate("failed-inbound-call-is-refunded", s.sig("failing-inbound-bridge-call-created-no-refund-record"), "")
+			return
+		}
+		c.Outcome = "refund-record"
+		k := scen.Keeper(s.w, ch)
+		oc, _ := k.GetOutgoingBridgeCallByNonce(c.Ctx, n)
+		m.Calls[n] = &Call{Nonce: n, Chain: ch, Sender: refund, Refund: refund, Toks: map[string]int64{tok: 2}, State: "open", Timeout: oc.Timeout}
+		if s.Ledger {
+			if got := scen.Holdings(s.w, c.Ctx, tk, s.reverter.Bytes()); !got.Equal(revBefore) {
+				c.Violate("failed-inbound-call-is-refunded", s.sig("receiver-of-failed-inbound-bridge-call-keeps-the-tokens"), fmt.Sprintf("the reverting contract's holdings of %s went %s -> %s; the refund record was funded by %s instead", tok, revBefore, got, refund))
+			}
+		}
+	}}
 }
